@@ -64,7 +64,7 @@ struct Edge {
   enum VisitMark { VisitNone, VisitInStack, VisitDone };
   Edge() : rule_(0), pool_(0), dyndep_(0), env_(0), id_(0), critical_path_weight_(-1), mark_(VisitNone), outputs_ready_(false),
            deps_loaded_(false), deps_missing_(false), generated_by_dep_loader_(false), command_start_time_(0),
-           implicit_deps_(0), order_only_deps_(0), implicit_outs_(0), vf_phony(false), vf_console(false), vf_restat(false), vf_generator(false) {}
+           implicit_deps_(0), order_only_deps_(0), implicit_outs_(0), vf_phony(false), vf_console(false), vf_restat(false), vf_generator(false), vf_phonycycle(false) {}
   bool AllInputsReady() const;
   int64_t critical_path_weight() const { return critical_path_weight_; }
   void set_critical_path_weight(int64_t critical_path_weight) { critical_path_weight_ = critical_path_weight; }
@@ -107,6 +107,8 @@ struct Edge {
   std::string EvaluateCommand(bool incl_rsp_file = false) const { (void)incl_rsp_file; return vf_command; }
 #endif
   bool vf_restat, vf_generator;
+  bool maybe_phonycycle_diagnostic() const { return vf_phonycycle; }      /* callee contract: a pure function of the edge (phony, one output, no inputs before the parser's filter) */
+  bool vf_phonycycle;
 };
 /* ---- contract stub of EdgePriorityQueue (std::priority_queue<Edge*>): a bag; top() is some element ---- */
 #ifndef VF_Q_CAP
